@@ -15,7 +15,7 @@ def prebuild():
 def run(ctx):
     ctx.rule = ("(a) complete product: statement kind {static macro, LOG_DYNAMIC, LOG_RUNTIME_METADATA} x 9 levels x logger level "
                 "{9 levels, None} x two sinks each with threshold {TraceL3, Warning, Critical} x filter set {none, reject-odd, "
-                "reject-all, both} x override pattern on sink 2 {no, yes}, each statement with a side-effect argument; (b) a walk "
+                "reject-all, both} x override pattern {none, on the second sink, on the first sink}, each statement with a side-effect argument; (b) a walk "
                 "through every ordered pair of statement kinds (static/dynamic level, plain/named args, run-time metadata) with "
                 "one backend event slot; (c) all schedules up to the preemption bound of two logging threads + one thread "
                 "changing the logger level / a sink threshold / adding a filter, against the preemptible backend; "
@@ -24,6 +24,8 @@ def run(ctx):
     exe = vf.build("c16_levels", SRC_A, FLAGS_A)
     nsh = 16
     jobs = [(exe, ["--shard", s, "--nshards", nsh, "--hard", 1], 600) for s in range(nsh)]
+    # the slot walk again with bursts that make the one-slot transit buffer grow (events are moved by _expand)
+    jobs += [(exe, ["--only-slots", 1, "--hard", h], 600) for h in (2, 4, 8)]
     if ctx.tier == "thorough":
         jobs += [(exe, ["--shard", s, "--nshards", nsh, "--hard", 4], 600) for s in range(nsh)]
     for rr in vf.run_many(jobs):
